@@ -794,12 +794,13 @@ Lemma sym_table_in f e : In e (sym_table f) -> In (fst e) (client_templates defa
 Proof. unfold sym_table. intro H. apply in_map_iff in H as (t & <- & Ht). auto. Qed.
 Lemma sym_table_entry f tpl : In tpl (client_templates default_templates) -> In (tpl, sym_filename f tpl) (sym_table f).
 Proof. unfold sym_table. intro H. apply in_map_iff. exists tpl. auto. Qed.
+(* keep the tables folded: the kernel must not enumerate them when it re-checks the proofs below *)
+Global Opaque sym_table.
 Lemma init_table_entry f e : In e (sym_table f) -> init_ok_entry f (sym_table f) (sym_table (noctx f)) (sym_table (topctx f)) e = true.
 Proof.
   intro H. pose proof default_init_ok as F. rewrite forallb_forall in F. specialize (F f (all_flags_complete f)).
   unfold init_ok_f in F. rewrite forallb_forall in F. exact (F e H).
 Qed.
-Global Opaque sym_table.
 
 
 Lemma kind_insts_kind a o tpl view skip i : In i (kind_insts a o tpl view skip) ->
@@ -965,4 +966,176 @@ Proof.
     + replace (flags_of a old (mk_inst tpl' (u_sub u) (Some s) None)) with (flags_of a old i); [exact Eq|].
       unfold flags_of. cbn [i_view i_service i_proto mk_inst]. now rewrite Eview, Esv, Epr.
     + intros v _. unfold val_of. cbn [i_view i_service i_proto mk_inst]. now rewrite Eview, Esv, Epr.
+Qed.
+
+(* ------------------------------------------------------------------ rootedness, lifted *)
+Lemma python_sources_rooted a o old l : wf_rapi a old -> instances default_templates a o = Ok l ->
+  forall i, In i l -> forall base_s, pkg_base_str a (i_tpl i) = Some base_s ->
+  exists rest, inst_name a i = base_s ++ "/" ++ rest.
+Proof.
+  intros W Hl i Hi base_s Hb.
+  pose proof (instances_inv _ a o old l W Hl) as Hinv. rewrite Forall_forall in Hinv. destruct (Hinv i Hi) as [Htpl Hwf].
+  destruct (pkg_base_conc a old i (i_tpl i) base_s W Hb) as (base & Hpb & Hbase).
+  destruct (get_filename_rooted (i_tpl i) (val_of a i) (flags_of a old i) base Htpl (val_ok_inst a old i W Hwf) Hpb)
+    as (rest & r & _ & _ & _ & Hn).
+  exists (conc (val_of a i) rest). unfold inst_name. rewrite (ctx_of_val_inst a old i W), Hn, Hbase. reflexivity.
+Qed.
+
+(* ------------------------------------------------------------------ one types module per target proto, one package per service *)
+Definition types_tpl : string := "%namespace/%name_%version/%sub/types/%proto.py.j2".
+Definition service_pkg_tpls : list string :=
+  ["%namespace/%name_%version/%sub/services/%service/__init__.py.j2";
+   "%namespace/%name_%version/%sub/services/%service/client.py.j2";
+   "%namespace/%name_%version/%sub/services/%service/transports/__init__.py.j2";
+   "%namespace/%name_%version/%sub/services/%service/transports/base.py.j2"].
+
+Lemma mem_str_in x l : mem_str x l = true -> In x l.
+Proof. unfold mem_str. rewrite existsb_exists. intros (y & Hy & E). apply String.eqb_eq in E. now subst. Qed.
+
+Lemma types_tpl_facts :
+  In types_tpl (client_templates default_templates) /\ occurs "%proto" types_tpl = true /\ occurs "%sub" types_tpl = true
+  /\ (forall o, ggate o types_tpl = true)
+  /\ forallb (fun t => negb (occurs "%proto" t) || String.eqb t types_tpl) (client_templates default_templates) = true.
+Proof.
+  split; [apply mem_str_in; vm_compute; reflexivity|]. split; [vm_compute; reflexivity|]. split; [vm_compute; reflexivity|].
+  split; [|vm_compute; reflexivity]. intros [m t u r]. destruct m, u; vm_compute; reflexivity.
+Qed.
+Lemma service_pkg_facts :
+  forallb (fun t => mem_str t (client_templates default_templates) && service_tpl t && occurs "%sub" t && sgate_always t
+                    && ggate_le "" t) service_pkg_tpls = true.
+Proof. vm_compute. reflexivity. Qed.
+
+Lemma inst_eta i : i = mk_inst (i_tpl i) (i_view i) (i_service i) (i_proto i).
+Proof. destruct i; reflexivity. Qed.
+
+Lemma in_instances_tpl templates a o l i : shallow a -> instances templates a o = Ok l -> In i l ->
+  In (i_tpl i) (client_templates templates) /\ In i (tpl_insts a o (i_tpl i)).
+Proof.
+  intros Hs Hl Hi. rewrite (instances_shallow _ a o l Hs Hl) in Hi. apply in_flat_map in Hi as (tpl & Ht & Hi).
+  destruct (tpl_insts_view a o tpl i Hi) as (<- & _). auto.
+Qed.
+
+(* exactly the target protos get a types module: each target proto has an instance of the types template, in its own
+   sub-package, and every instance of a per-proto template is one of these *)
+Lemma one_types_module_per_target_proto a o l : shallow a -> instances default_templates a o = Ok l ->
+  (forall u, In u (ra_protos a) -> In (mk_inst types_tpl (u_sub u) None (Some (u_module u))) l) /\
+  (forall i, In i l -> i_proto i <> None ->
+             exists u, In u (ra_protos a) /\ i = mk_inst types_tpl (u_sub u) None (Some (u_module u))).
+Proof.
+  intros Hs Hl. destruct types_tpl_facts as (Hin & Hp & Hsub & Hg & Honly). split.
+  - intros u Hu. rewrite (instances_shallow _ a o l Hs Hl). apply in_flat_map. exists types_tpl. split; [assumption|].
+    apply proto_in; auto.
+  - intros i Hi Hnone. destruct (in_instances_tpl _ a o l i Hs Hl Hi) as [Ht Hti].
+    destruct (tpl_insts_kind a o (i_tpl i) i Hti) as [_ Kp].
+    assert (Hpo : occurs "%proto" (i_tpl i) = true) by (rewrite <- Kp; destruct (i_proto i); [reflexivity|congruence]).
+    rewrite forallb_forall in Honly. specialize (Honly _ Ht). rewrite Hpo in Honly. cbn [negb orb] in Honly.
+    apply String.eqb_eq in Honly.
+    rewrite Honly in Hti. destruct (tpl_insts_proto a o types_tpl i Hs Hp Hsub Hti) as (u & Hu & Ep & Es & Ev).
+    exists u. split; [assumption|]. rewrite (inst_eta i), Honly, Ep, Es, Ev. reflexivity.
+Qed.
+
+(* every service of every target proto gets its package: __init__.py, client.py, transports/__init__.py, transports/base.py,
+   for every option set; and a per-service template of the package is only ever rendered for a service of a target proto *)
+Lemma one_package_per_service a o l : shallow a -> instances default_templates a o = Ok l ->
+  (forall tpl u s, In tpl service_pkg_tpls -> In u (ra_protos a) -> In s (u_services u) ->
+                   In (mk_inst tpl (u_sub u) (Some s) None) l) /\
+  (forall i, In i l -> service_tpl (i_tpl i) = true -> occurs "%sub" (i_tpl i) = true ->
+             exists u s, In u (ra_protos a) /\ In s (u_services u) /\ i = mk_inst (i_tpl i) (u_sub u) (Some s) None).
+Proof.
+  intros Hs Hl. split.
+  - intros tpl u s Ht Hu Hsv. pose proof service_pkg_facts as F. rewrite forallb_forall in F. specialize (F tpl Ht).
+    apply andb_true_iff in F as [F Hle]. apply andb_true_iff in F as [F Hsa]. apply andb_true_iff in F as [F Hsub].
+    apply andb_true_iff in F as [Hmem Hst].
+    rewrite (instances_shallow _ a o l Hs Hl). apply in_flat_map. exists tpl. split; [now apply mem_str_in|].
+    apply service_in; auto; [|now apply sgate_always_sound].
+    (* no global gate applies: ggate_le "" tpl says tpl passes whenever the (ungated) empty name does *)
+    apply (ggate_le_sound "" tpl o Hle). destruct o as [m t u0 r]. destruct m, u0; reflexivity.
+  - intros i Hi Hst Hsub. destruct (in_instances_tpl _ a o l i Hs Hl Hi) as [_ Hti].
+    destruct (tpl_insts_service a o (i_tpl i) i Hs Hst Hsub Hti) as (s & u & Es & Ep & Hu & Hsu & Ev & _).
+    exists u, s. repeat split; auto. rewrite (inst_eta i) at 1. now rewrite Es, Ep, Ev.
+Qed.
+
+(* the name of a types module, for every well-formed API: <root>/[<sub>/]types/<module>.py *)
+Definition types_atoms (f : flags) : list atom :=
+  (root_atoms f ++ [Ch slash] ++ (if fl_sub f then [Var VSub; Ch slash] else []) ++ atoms_of "types/" ++ [Var VProto] ++ atoms_of ".py")%list.
+Lemma types_sym_ok :
+  forallb (fun f => negb (fl_proto f) || fl_svc f || opt_atoms_eqb (sym_filename f types_tpl) (types_atoms f)) all_flags = true.
+Proof. vm_compute. reflexivity. Qed.
+Lemma types_module_name a old sub m : wf_rapi a old -> Forall word sub -> word m ->
+  inst_name a (mk_inst types_tpl sub None (Some m)) =
+  root_of a ++ "/" ++ (match sub with [] => "" | _ => sjoin "/" sub ++ "/" end) ++ "types/" ++ m ++ ".py".
+Proof.
+  intros W Hsub Hm. set (i := mk_inst types_tpl sub None (Some m)).
+  assert (Hwf : inst_wf i) by (repeat split; cbn; [assumption | discriminate | intros p E; inversion E; now subst]).
+  pose proof types_sym_ok as F. rewrite forallb_forall in F. specialize (F (flags_of a old i) (all_flags_complete _)).
+  cbn [flags_of fl_proto fl_svc i mk_inst i_proto i_service is_some negb orb] in F. apply opt_atoms_eqb_eq in F.
+  rewrite (inst_name_sym a old i _ W Hwf F). unfold types_atoms. rewrite !conc_app.
+  unfold root_atoms. rewrite conc_app, conc_ns_atoms, (conc_nv_atoms a old i W), !conc_atoms_of. unfold root_of.
+  cbn [flags_of fl_sub i mk_inst i_view]. destruct sub as [|n sub']; cbn [conc val_of i mk_inst i_view i_proto opt_str];
+    rewrite ?sapp_assoc; cbn [append]; rewrite ?sapp_nil_r, ?sapp_assoc; reflexivity.
+Qed.
+
+(* ------------------------------------------------------------------ dependency files *)
+(* every target proto of the model stems from a request file whose package has the target package as a STRING prefix ... *)
+Lemma protos_from_prefixed_files files to_generate o a : build_rapi files to_generate o = Ok a ->
+  let package := rstrip_dots (commonprefix (map pf_package (filter (fun f => mem_str (pf_name f) to_generate) files))) in
+  forall u, In u (ra_protos a) ->
+  exists f, In f (sanitize_all [] files) /\ starts_with package (pf_package f) = true /\ u_module u = proto_module (pf_name f).
+Proof.
+  unfold build_rapi. intros H package u Hu. apply bind_ok in H as (n & _ & H). inversion H; subst a. clear H.
+  cbn [ra_protos] in Hu. apply in_map_iff in Hu as (f & <- & Hf). apply filter_In in Hf as [Hf Hp].
+  exists f. auto.
+Qed.
+(* ... which is not the same as belonging to the target package: a dependency-only file of package a.b.v1beta1 is taken for a
+   target of a.b.v1 and gets a types module (finding) *)
+Lemma nothing_for_dependency_files_refuted :
+  exists files to_generate names,
+    generate default_templates files to_generate "" false false = Ok (names, 1) /\
+    exists dep, In dep files /\ mem_str (pf_name dep) to_generate = false /\ pf_package dep = "a.b.v1beta1" /\
+                forallb (fun f => negb (mem_str (pf_name f) to_generate) || String.eqb (pf_package f) "a.b.v1") files = true /\
+                In "a/b_v1/types/dep.py" names.
+Proof.
+  exists [mkPF "a/b/v1beta1/dep.proto" "a.b.v1beta1" []; mkPF "a/b/v1/top.proto" "a.b.v1" ["Top"]], ["a/b/v1/top.proto"].
+  eexists. split; [vm_compute; reflexivity|]. exists (mkPF "a/b/v1beta1/dep.proto" "a.b.v1beta1" []).
+  split; [now left|]. split; [reflexivity|]. split; [reflexivity|]. split; [reflexivity|].
+  apply mem_str_in. vm_compute. reflexivity.
+Qed.
+
+(* proto sub-packages nested two levels deep: API.subpackages looks at subpackage[0] at every level, the inner package is never
+   visited and its protos get no types module (finding; the hypothesis "shallow" of the theorems above is needed) *)
+Definition nested_api : rapi :=
+  {| ra_ns := "a"; ra_name := "b"; ra_version := "v1"; ra_nv := "b_v1";
+     ra_protos := [mkU "top" [] ["top_svc"]; mkU "mid" ["sub"] []; mkU "low" ["sub"; "deep"] []] |}.
+Definition plain_opts : ropts := {| ro_metadata := false; ro_transport := ["grpc"]; ro_unversioned_disabled := false; ro_rest_async := false |}.
+Lemma nested_subpackage_refuted :
+  wf_rapi nested_api false /\ In (mkU "low" ["sub"; "deep"] []) (ra_protos nested_api) /\
+  exists l, instances default_templates nested_api plain_opts = Ok l /\
+            forallb (fun i => negb (option_eqb String.eqb (i_proto i) (Some "low"))) l = true /\
+            existsb (fun i => option_eqb String.eqb (i_proto i) (Some "mid")) l = true.
+Proof.
+  split; [|split; [simpl; auto|]].
+  - constructor; try (vm_compute; reflexivity); [right; vm_compute; reflexivity | right; vm_compute; reflexivity|].
+    repeat constructor; vm_compute; reflexivity.
+  - eexists. split; [vm_compute; reflexivity|]. split; vm_compute; reflexivity.
+Qed.
+
+(* ------------------------------------------------------------------ non-vacuity: a non-trivial API satisfying every hypothesis *)
+Definition example_api : rapi :=
+  {| ra_ns := "google/cloud"; ra_name := "big_query"; ra_version := "v1beta1"; ra_nv := "big_query_v1beta1";
+     ra_protos := [mkU "library" [] ["library_admin"; "iam"]; mkU "camel_case_2fa" [] []; mkU "extra" ["sub"] ["aux_2b"]] |}.
+Definition example_opts : ropts :=
+  {| ro_metadata := true; ro_transport := ["grpc"; "rest"]; ro_unversioned_disabled := false; ro_rest_async := false |}.
+Lemma example_ok :
+  wf_rapi example_api false /\ shallow example_api /\
+  exists names, candidates default_templates example_api example_opts = Ok names /\
+    In "google/cloud/big_query_v1beta1/sub/types/extra.py" names /\
+    In "google/cloud/big_query_v1beta1/sub/services/aux_2b/transports/__init__.py" names /\
+    In "google/cloud/big_query_v1beta1/services/iam/transports/rest.py" names /\
+    In "google/cloud/big_query/__init__.py" names /\ List.length names = 127.
+Proof.
+  split; [|split].
+  - constructor; try (vm_compute; reflexivity); [right; vm_compute; reflexivity | right; vm_compute; reflexivity|].
+    repeat constructor; vm_compute; reflexivity.
+  - repeat constructor; simpl; lia.
+  - eexists. split; [vm_compute; reflexivity|]. repeat split; try (apply mem_str_in; vm_compute; reflexivity).
 Qed.
